@@ -400,21 +400,23 @@ class RegexCompiler:
             max_group = max(groups)
             self._emit(Op.SAVE_RESET, min_group, max_group)
 
-    def _compile_optional(self, body: Node, greedy: bool):
-        """Compile ? quantifier."""
+    def _compile_optional(self, body: Node, greedy: bool, reg: Optional[int] = None):
+        """Compile ? quantifier (also each optional repetition of {n,m}, which share `reg`)."""
         # Find capture groups in body to reset when skipping
         capture_groups = self._find_capture_groups(body)
 
         # Check if body might match zero-width (e.g., lookaheads)
         # Per ECMAScript an optional iteration that matches the empty string is
         # discarded, which leaves the captures as they were before the iteration
-        need_zero_width_reset = capture_groups and self._needs_advance_check(body)
+        # ... and forces a lazy body to consume something: (?:x*?){0,2} matches "xx"
+        need_zero_width_reset = self._needs_advance_check(body)
 
         if greedy:
             # Try match first, skip as backup
             if need_zero_width_reset:
                 # Save position to check if body advanced
-                reg = self._allocate_register()
+                if reg is None:
+                    reg = self._allocate_register()
                 self._emit(Op.SET_POS, reg)
 
             split_idx = self._emit(Op.SPLIT_FIRST, 0)
@@ -435,7 +437,8 @@ class RegexCompiler:
 
             if need_zero_width_reset:
                 # Save position to check if body advanced
-                reg = self._allocate_register()
+                if reg is None:
+                    reg = self._allocate_register()
                 self._emit(Op.SET_POS, reg)
 
             self._emit_capture_reset(capture_groups)
@@ -528,9 +531,14 @@ class RegexCompiler:
             self._emit_capture_reset(capture_groups)
             self._compile_node(body)
 
-        # Emit body (max_count - min_count) times (optional)
+        # Emit body (max_count - min_count) times (optional); the repetitions run one
+        # after the other and registers are restored on backtracking, so one register
+        # serves all of them
+        reg = None
+        if max_count > min_count and self._needs_advance_check(body):
+            reg = self._allocate_register()
         for _ in range(max_count - min_count):
-            self._compile_optional(body, greedy)
+            self._compile_optional(body, greedy, reg)
 
     def _allocate_register(self) -> int:
         """Allocate a register for position tracking."""
